@@ -57,6 +57,9 @@ def cases(tier: str, seed: int) -> list[dict]:
             for dim, ps in [(3, False), (2, True), (2, False)]:
                 for axes in ["default", "orthonormal", "unnormalised", "axis1-on-x", "axis2-on-y"]:
                     out.append({"sc": "law", "kind": kind, "dim": dim, "ps": ps, "axes": axes})
+                if dim == 2 and kind != "iso":
+                    # a 2-D model of a material whose axes leave the plane (a generic 3-D frame): the out-of-plane shear couples in
+                    out.append({"sc": "law", "kind": kind, "dim": 2, "ps": ps, "axes": "out-of-plane"})
             out.append({"sc": "hetero", "kind": kind, "dim": [3, 2][r % 2], "ps": bool(r % 2), "form": ["Ne", "NePg"][r % 2]})
             out.append({"sc": "update", "kind": kind, "dim": [3, 2][r % 2], "ps": bool((r // 2) % 2)})
             out.append({"sc": "walpole", "kind": kind})
@@ -98,7 +101,7 @@ def _axes(rng, dim, cls):
             a1, a2 = np.array([np.cos(th), 0, np.sin(th)]), np.array([0, 1.0, 0])
         P = T.frame(a1, a2)
         return a1 * float(rng.uniform(0.2, 5)), a2 * float(rng.uniform(0.2, 5)), P
-    a1, a2 = gmat.random_axes(rng, dim)
+    a1, a2 = gmat.random_axes(rng, 3 if cls == "out-of-plane" else dim)
     P = T.frame(a1, a2)
     if cls == "unnormalised":
         a1, a2 = a1 * float(rng.uniform(0.2, 5)), a2 * float(rng.uniform(0.2, 5))
